@@ -27,7 +27,7 @@ fn type_is_interesting(t: &str) -> bool {
     !is_valid_type(t) || t.bytes().any(|b| b.is_ascii_uppercase() || b.is_ascii_digit() || matches!(b, b'.' | b'+' | b'-'))
 }
 
-fn parse_diff(s: &str, st: &mut Stats) -> Result<(), String> {
+pub fn parse_diff(s: &str, st: &mut Stats) -> Result<(), String> {
     let a = full::<IStr>(s);
     let b = full::<ISmall>(s);
     if a != b {
